@@ -219,7 +219,13 @@ class SqlColumnVisitor(
             return sqlalchemy.sql.and_(
                 *[
                     target,
-                    sql_member % sqlalchemy.literal(step) == sqlalchemy.literal(start % step),
+                    # The target above guarantees member >= start, so the
+                    # dividend is never negative and SQL's truncated
+                    # modulus agrees with the mathematical one (comparing
+                    # member % step with Python's start % step does not when
+                    # member is negative).
+                    (sql_member - sqlalchemy.literal(start)) % sqlalchemy.literal(step)
+                    == sqlalchemy.literal(0),
                 ]
             )
         else:
